@@ -3,13 +3,12 @@ import GqlModel.Validate.Engine
 namespace Gql.Validate.Rules
 open Gql Gql.Validate
 
-/-- Go ranges over the map `Schema.Types` (random order) to build the options; the model passes
-    the type names sorted bytewise (DESIGN §7 R10) -/
-def sortedTypeNames (s : Schema) : List Name := (s.types.map (·.2.name)).mergeSort fun a b => !bytesLt b a
+/- Go ranges over the map `Schema.Types` (random order) to build the options; the model passes
+   the type names sorted bytewise (`SV.typeNames`, DESIGN §7 R10) -/
 
 def unknownType (n : Name) : Bytes := str "Unknown type " ++ dq n ++ str "."
 
-def knownTypeNamesStep (s : Schema) (_ : QueryDoc) (e : Event) : List RErr :=
+def knownTypeNamesStep (s : SV) (_ : QueryDoc) (e : Event) : List RErr :=
   match e.p with
   | .variable v _ =>
     match s.type? v.type.name with
@@ -24,7 +23,7 @@ def knownTypeNamesStep (s : Schema) (_ : QueryDoc) (e : Event) : List RErr :=
     match s.type? f.typeCond with
     | some _ => []
     | none =>
-      [errAtS (unknownType f.typeCond) (suggestListQuoted (str "Did you mean") f.typeCond (sortedTypeNames s)) f.pos]
+      [errAtS (unknownType f.typeCond) (suggestListQuoted (str "Did you mean") f.typeCond s.typeNames) f.pos]
   | _ => []
 
 def knownTypeNames : Rule := Rule.stateless (str "KnownTypeNames") knownTypeNamesStep
